@@ -176,6 +176,35 @@ Proof.
   eexists. split; [vm_compute; reflexivity|]. split; [apply wf_fileb_ok|]; vm_compute; reflexivity.
 Qed.
 
+(* ---- orphan FICTIVE volumes (observed by C16): remove_unused_volumes makes a single pass,
+   so when an unused virtual volume (2) is deleted its own operand (3) stays in the table and
+   in the file although nothing refers to it any more.  Harmless for C08: every clause of
+   wf_file is about what IS referenced (C08_prune_preserves_wf and C08_write_wf cover such
+   tables); here is one, with the orphan written as VOLU 3 ... FICTIVE ------------------------ *)
+Definition surfs_orphan : stable nat :=
+  [(1, sph "2.0" 1); (2, sph "10.0" 2);
+   (6, plane "PLANEX" "1" ["aux plane for unions"] 6); (7, plane "PLANEX" "-1" ["aux plane for unions"] 7)].
+
+Definition vols_orphan : vtable :=
+  [(1, mkVol [1] [1] (Some (OInte, [Some 2])) [] false);      (* patently empty cell *)
+   (2, mkVol [] [1] (Some (OUnion, [Some 3])) [] true);      (* used only by 1 *)
+   (3, mkVol [2] [] None [] true);                           (* used only by 2 *)
+   (4, mkVol [] [2] None [] false)].
+
+Theorem orphan_fictive_harmless :
+  refs_ok surfs_orphan vols_orphan /\
+  exists surfs' vols' ren' f,
+    prune Nat.eqb false surfs_orphan vols_orphan 6 7 = Ok (surfs', vols', ren') /\
+    keys vols' = [3; 4] /\ used_ids vols' = [] /\
+    write_file ren' (mkW surfs' vols' [] [(4, cell_m1 true)] mat_h [] [] false false false) = Complete f /\
+    wf_file f /\ In "VOLU 3 EQUA PLUS 1 2 FICTIVE ENDV"%string (print_file f).
+Proof.
+  split; [apply refs_okb_sound; vm_compute; reflexivity|].
+  eexists. eexists. eexists. eexists. split; [vm_compute; reflexivity|].
+  do 2 (split; [vm_compute; reflexivity|]). split; [vm_compute; reflexivity|].
+  split; [apply wf_fileb_ok; vm_compute; reflexivity|vm_compute; tauto].
+Qed.
+
 (* ---- non-vacuity: a state with a union, an intersection, a duplicate surface, a skipped
    virtual volume, two materials, a flagged surface; all hypotheses of write_wf and of
    prune_preserves_wf hold, and the whole pipeline produces a well-formed file ---------------- *)
